@@ -230,8 +230,12 @@ theorem monitor_rules_eavesdrop : ∀ (texts : List Bytes) (rules : List MatchRu
   connection (`shade`: same place among the connections, no filter, not a monitor) the gate gives
   the same verdicts, the same connections have a matching rule, and routing a message or sending a
   driver message produces the same ordinary deliveries, the same error and the same state changes.
-  What is missing for the full statement is the same congruence for the driver's methods and the
-  disconnect path, and the induction over histories. -/
+  For peer traffic (every message not addressed to the bus driver) this is lifted to a whole step of
+  the bus (`peer_traffic_step_ignores_monitors_partial`); the registry edits are covered too
+  (`shadow_acquire`, `shadow_release`, `shadow_removeOwner` in Proofs/Bus/Monitors.lean).  What is
+  missing for the full statement is the same congruence for the rest of the driver's methods (Hello,
+  AddMatch/RemoveMatch, BecomeMonitor itself) and the disconnect path, the invariant that no pending
+  reply involves a monitor, and the induction over histories. -/
 
 theorem gate_ignores_monitors (b : Bus) (s a p : Option ConnId) (m : Msg) :
     checkPolicy (shade b) s a p m = checkPolicy b s a p m := checkPolicy_shade b s a p m
@@ -248,6 +252,15 @@ theorem driver_sends_the_same_partial (b : Bus) (to : ConnId) (m : Msg) :
     (sendFromDriver { bus := shade b } to m).bus = shade (sendFromDriver { bus := b } to m).bus := by
   have h := shadow_sendFromDriver (t := { bus := b }) (t' := { bus := shade b }) ⟨rfl, rfl⟩ to m
   exact ⟨h.2, h.1⟩
+
+/-- a whole step of the bus for peer traffic (everything but calls to the bus driver): same ordinary output, same state
+    up to shading -/
+theorem peer_traffic_step_ignores_monitors_partial (tbl : List IfaceRow) (b : Bus) (hc : MonClean b) (c : ConnId) (x : Conn) (m0 : Msg)
+    (hx : b.conn? c = some x) (hmon : x.monitor = false) (hname : x.name.isSome = true)
+    (hdest : ((strip m0).setSender (senderNameOf b c)).dest ≠ some BUS_NAME) :
+    (step tbl (shade b) (.msg c m0)).out = (step tbl b (.msg c m0)).out ∧
+    (step tbl (shade b) (.msg c m0)).bus = shade (step tbl b (.msg c m0)).bus :=
+  dispatch_peer_traffic_shade tbl b hc c x m0 hx hmon hname hdest
 
 /-- the side condition is what `BecomeMonitor` establishes: the new monitor is left without ordinary rules -/
 theorem new_monitor_has_no_rules (c : ConnId) (x : Conn) (rules : List MatchRule) (b : Bus) :
